@@ -265,6 +265,9 @@ Proof.
   intros Hl Hne. unfold read_chunk, write_chunk. rewrite <- app_assoc.
   rewrite read_uvarint_put by (rewrite chunkSizeLimit_val in Hl; change (2 ^ 64) with 18446744073709551616; lia).
   cbn [bind].
+  replace (length (put_uvarint (N.of_nat (length data)) ++ data ++ rest) - length (data ++ rest))%nat
+    with (length (put_uvarint (N.of_nat (length data)))) by (rewrite (app_length (put_uvarint _)); lia).
+  rewrite Nat.eqb_refl. cbn [guard bind].
   replace (chunkSizeLimit <? N.of_nat (length data)) with false by (symmetry; apply N.ltb_ge; exact Hl).
   replace (N.of_nat (length (data ++ rest)) <? N.of_nat (length data)) with false
     by (symmetry; apply N.ltb_ge; rewrite app_length; lia).
@@ -354,7 +357,8 @@ Proof.
     rewrite bytes_eqb_refl. cbn [guard bind].
     rewrite read_fixed_be by exact Hx. cbn [bind].
     rewrite <- (app_nil_r (be_s (byteLen c) ay)). rewrite read_fixed_be by exact Hy. cbn [bind].
-    rewrite bytes_eqb_refl. cbn [guard bind]. rewrite of_be_s_be_s by (apply sid_fits; exact Hs). reflexivity.
+    rewrite bytes_eqb_refl. cbn [guard bind no_trailing length Nat.eqb].
+    rewrite of_be_s_be_s by (apply sid_fits; exact Hs). reflexivity.
   - rewrite write_chunk_name. rewrite !app_length. change (length magicRound1) with 2%nat.
     cbn [length]. rewrite !be_s_length, curve_name_length. lia.
 Qed.
@@ -387,11 +391,11 @@ Proof.
     rewrite read_chunk_write_chunk.
     2:{ rewrite Li, chunkSizeLimit_val. lia. }
     2:{ rewrite app_nil_r. intros E. rewrite E in Li. cbn in Li. lia. }
-    cbn [bind]. unfold decodeCOSenderSetup, inner. rewrite read_chunk_name. cbn [bind].
+    cbn [bind no_trailing length Nat.eqb guard]. unfold decodeCOSenderSetup, inner. rewrite read_chunk_name. cbn [bind].
     rewrite bytes_eqb_refl. cbn [guard bind].
     rewrite <- (app_nil_r fs). unfold fs.
     change 5%nat with (length [sc; ax; ay; ix; iy]).
-    rewrite read_fixed_list_ok by exact Hf. cbn [bind].
+    rewrite read_fixed_list_ok by exact Hf. cbn [bind no_trailing length Nat.eqb guard].
     rewrite of_be_s_be_s by (apply sid_fits; exact Hs). reflexivity.
   - rewrite !app_length, be_s_length. change (length magicGarblerSession) with 2%nat.
     unfold write_chunk. rewrite app_length, Li.
@@ -411,12 +415,6 @@ Definition wf_es (c : curve) (s : esession) : Prop :=
 (* 48 + 258*byteLen + the uvarint of the inner length (3 bytes for P-521) *)
 Definition es_len (c : curve) : nat :=
   (match c with P521 => 51 | _ => 50 end + 258 * byteLen c)%nat.
-
-Lemma reader_read_all k a : length a = k -> a <> [] -> reader_read k a = Ok (a, []).
-Proof.
-  intros <- Hne. unfold reader_read. destruct a as [|x a]; [contradiction|].
-  rewrite firstn_all, skipn_all, Nat.sub_diag. cbn [repeat]. rewrite app_nil_r. reflexivity.
-Qed.
 
 Lemma sign_bytes_length bits : length bits = evaluatorCiphertextCount ->
   length (bitsToBytesLittle bits) = evaluatorChoiceSignBytes.
@@ -455,12 +453,12 @@ Proof.
     rewrite read_chunk_write_chunk.
     2:{ rewrite Li, chunkSizeLimit_val. lia. }
     2:{ rewrite app_nil_r. intros E. rewrite E in Li. cbn in Li. lia. }
-    cbn [bind]. unfold decodeChoiceBundle, inner. rewrite read_chunk_name. cbn [bind].
+    cbn [bind no_trailing length Nat.eqb guard]. unfold decodeChoiceBundle, inner. rewrite read_chunk_name. cbn [bind].
     rewrite bytes_eqb_refl. cbn [guard bind].
     unfold aa. change 2%nat with (length [ax; ay]) at 1.
     rewrite read_fixed_list_ok by (repeat constructor; assumption). cbn [bind].
     unfold ss. rewrite <- Ls. rewrite read_fixed_list_ok by exact Fs. cbn [bind].
-    rewrite reader_read_all; [|exact Lsig|intros E; rewrite E in Lsig'; discriminate]. cbn [bind].
+    rewrite <- (app_nil_r sig). rewrite read_full_app by exact Lsig. cbn [bind no_trailing length Nat.eqb guard].
     rewrite bytesToBitsLittle_length, Lsig'. rewrite Ls.
     change (evaluatorCiphertextCount <=? 8 * 32)%nat with true. cbn [guard bind nth].
     unfold sig. rewrite <- Lb, firstn_bytes_bits.
@@ -870,7 +868,7 @@ Proof.
   rewrite <- (app_nil_r (write_chunk inner)). rewrite read_chunk_write_chunk.
   2:{ rewrite Li, chunkSizeLimit_val. lia. }
   2:{ rewrite app_nil_r. intros E. rewrite E in Li. cbn in Li. lia. }
-  cbn [bind]. unfold decodeCOSenderSetup, inner. rewrite read_chunk_name. cbn [bind].
+  cbn [bind no_trailing length Nat.eqb guard]. unfold decodeCOSenderSetup, inner. rewrite read_chunk_name. cbn [bind].
   rewrite bytes_eqb_neq; [reflexivity|]. intros E. apply Hc. apply curve_name_inj. exact E.
 Qed.
 
@@ -901,7 +899,7 @@ Proof.
   rewrite <- (app_nil_r (write_chunk (write_chunk (curve_name c) ++ tl))). rewrite read_chunk_write_chunk.
   2:{ exact Li. }
   2:{ rewrite write_chunk_name. discriminate. }
-  cbn [bind]. unfold decodeChoiceBundle. rewrite read_chunk_name. cbn [bind].
+  cbn [bind no_trailing length Nat.eqb guard]. unfold decodeChoiceBundle. rewrite read_chunk_name. cbn [bind].
   rewrite bytes_eqb_neq; [reflexivity|]. intros E. apply Hc. apply curve_name_inj. exact E.
 Qed.
 
@@ -922,6 +920,7 @@ Qed.
 Lemma np_read_chunk r : not_panic (read_chunk r).
 Proof.
   unfold read_chunk. apply bind_not_panic; [apply np_read_uvarint_from|]. intros [n r1] _.
+  apply bind_not_panic; [apply guard_not_panic|]. intros _ _.
   unfold not_panic. destruct (chunkSizeLimit <? n); [discriminate|].
   destruct (N.of_nat (length r1) <? n); [discriminate|]. destruct r1; discriminate.
 Qed.
@@ -936,9 +935,6 @@ Proof.
   apply bind_not_panic; [apply IH|]. intros [vs r2] _. discriminate.
 Qed.
 
-Lemma np_reader_read k r : not_panic (reader_read k r).
-Proof. unfold reader_read, not_panic. destruct r; discriminate. Qed.
-
 Theorem no_panic_r1 c data : not_panic (DecodeRound1 c data).
 Proof.
   unfold DecodeRound1. apply bind_not_panic; [apply np_read_full|]. intros [magic r1] _.
@@ -949,7 +945,8 @@ Proof.
     apply bind_not_panic; [apply guard_not_panic|]. intros _ _.
     apply bind_not_panic; [apply np_read_fixed|]. intros [x r4] _.
     apply bind_not_panic; [apply np_read_fixed|]. intros [y r5] _. discriminate.
-  - intros [[[name x] y] r'] _. apply bind_not_panic; [apply guard_not_panic|]. intros _ _. discriminate.
+  - intros [[[name x] y] r'] _. apply bind_not_panic; [apply guard_not_panic|]. intros _ _.
+    apply bind_not_panic; [apply guard_not_panic|]. intros _ _. discriminate.
 Qed.
 
 Theorem no_panic_gs c data : not_panic (DecodeGarblerSession c data).
@@ -958,9 +955,11 @@ Proof.
   apply bind_not_panic; [apply guard_not_panic|]. intros _ _.
   apply bind_not_panic; [apply np_read_full|]. intros [sid r2] _.
   apply bind_not_panic; [apply np_read_chunk|]. intros [chunk r3] _.
+  apply bind_not_panic; [apply guard_not_panic|]. intros _ _.
   unfold decodeCOSenderSetup. apply bind_not_panic; [apply np_read_chunk|]. intros [name r4] _.
   apply bind_not_panic; [apply guard_not_panic|]. intros _ _.
   apply bind_not_panic; [apply np_read_fixed_list|]. intros [fs r5] _.
+  apply bind_not_panic; [apply guard_not_panic|]. intros _ _.
   unfold not_panic. destruct fs as [|? [|? [|? [|? [|? [|? ?]]]]]]; discriminate.
 Qed.
 
@@ -970,11 +969,13 @@ Proof.
   apply bind_not_panic; [apply guard_not_panic|]. intros _ _.
   apply bind_not_panic; [apply np_read_full|]. intros [sid r2] _.
   apply bind_not_panic; [apply np_read_chunk|]. intros [chunk r3] _.
+  apply bind_not_panic; [apply guard_not_panic|]. intros _ _.
   unfold decodeChoiceBundle. apply bind_not_panic; [apply np_read_chunk|]. intros [name r4] _.
   apply bind_not_panic; [apply guard_not_panic|]. intros _ _.
   apply bind_not_panic; [apply np_read_fixed_list|]. intros [a r5] _.
   apply bind_not_panic; [apply np_read_fixed_list|]. intros [sc r6] _.
-  apply bind_not_panic; [apply np_reader_read|]. intros [raw r7] _.
+  apply bind_not_panic; [apply np_read_full|]. intros [raw r7] _.
+  apply bind_not_panic; [apply guard_not_panic|]. intros _ _.
   apply bind_not_panic; [apply guard_not_panic|]. intros _ _. discriminate.
 Qed.
 
@@ -1208,7 +1209,27 @@ Section Resume.
   Theorem reject_curve_round2 rng msg b : r1_name msg <> curve_name c -> ER2 rng msg b = Err.
   Proof. intros H. unfold EvaluatorRound2. rewrite bytes_eqb_neq by exact H. reflexivity. Qed.
 
-  (* ---- correctness of the honest run ---- *)
+End Resume.
+
+(* ---- correctness of the honest (uninterrupted) run.  Only what the proof
+   needs of the cryptographic parts; instantiated from C01 and the CO model of
+   C06 in IO/Sha2pcInstProof.v *)
+Section Correct.
+  Variable RND : Type.
+  Variable c : curve.
+  Variable gen_sender : RND -> N * (N * N) * (N * N).
+  Variable read_sid : RND -> N.
+  Variable build_choices : RND -> N -> N -> list bool -> res (list N * list (N * N)).
+  Variable read_key : RND -> bytes.
+  Variable garble_circ : RND -> bytes -> res (list (N * N) * list (N * N) * list (N * N) * list N).
+  Variable encrypt_co : gsession -> list (N * N) -> list (N * N) -> res (list (N * N)).
+  Variable decrypt_co : esession -> list (N * N) -> res (list N).
+  Variable eval_circ : bytes -> list N -> list N -> list N -> res (list N).
+  Variable decompress : curve -> N -> bool -> option (N * N).
+
+  Notation RUN := (run_protocol RND c gen_sender read_sid build_choices read_key garble_circ
+                                encrypt_co decrypt_co eval_circ decompress).
+
   (* plain evaluation of the embedded circuit on garbler bits ‖ evaluator bits *)
   Variable circ_eval : list bool -> list bool.
 
@@ -1222,15 +1243,17 @@ Section Resume.
                     (map (fun p => pick2 (fst p) (snd p)) (combine ein xb)) tables = Ok outl /\
       decode_outputs outw outl = Ok (circ_eval (xa ++ xb)).
   Hypothesis garble_total : forall rng key, exists gin ein outw tables,
-    garble_circ rng key = Ok (gin, ein, outw, tables).
+    garble_circ rng key = Ok (gin, ein, outw, tables) /\
+    length ein = hashInputBitCount /\ length outw = outputHintCount.
   (* [C06, CO OT as ideal OT] the receiver's choices built against the
-     sender's A always succeed, encryption succeeds, and decryption returns
-     exactly the label selected by each choice bit *)
+     sender's A succeed, encryption succeeds, and decryption returns exactly
+     the label selected by each choice bit *)
   Hypothesis co_ot_correct : forall rng1 rng2 sid sid' bits ein,
     let '(a, (ax, ay), (ix, iy)) := gen_sender rng1 in
-    length bits = hashInputBitCount ->
+    length bits = hashInputBitCount -> length ein = length bits ->
     exists scalars points cts,
       build_choices rng2 ax ay bits = Ok (scalars, points) /\
+      length scalars = length bits /\
       encrypt_co (mkGS sid (curve_name c) a ax ay ix iy) points ein = Ok cts /\
       decrypt_co (mkES sid' (curve_name c) ax ay scalars bits) cts
       = Ok (map (fun p => pick2 (fst p) (snd p)) (combine ein bits)).
@@ -1244,103 +1267,622 @@ Section Resume.
     intros La Lb. unfold run_protocol.
     assert (Lba : length (bytesToBitsLittle a) = hashInputBitCount) by (rewrite bytesToBitsLittle_length, La; reflexivity).
     assert (Lbb : length (bytesToBitsLittle b) = hashInputBitCount) by (rewrite bytesToBitsLittle_length, Lb; reflexivity).
-    destruct (GR1 rg1) as [m1 gs] eqn:E1. cbn [iter_res opt_thru bind].
-    pose proof (round1_wf _ _ _ E1) as (W1 & Wg & _).
+    destruct (GarblerRound1 RND c gen_sender read_sid rg1) as [m1 gs] eqn:E1. cbn [iter_res opt_thru bind].
     revert E1. unfold GarblerRound1.
-    destruct (garble_total rg3 (read_key rg3)) as (gin & ein & outw & tables & Gb).
+    destruct (garble_total rg3 (read_key rg3)) as (gin & ein & outw & tables & Gb & Lein & Lo).
     pose proof (co_ot_correct rg1 re2 (read_sid rg1) (read_sid rg1) (bytesToBitsLittle b) ein) as OT.
-    pose proof (choices_wf re2) as CW.
     destruct (gen_sender rg1) as [[sa [ax ay]] [ix iy]].
     intros E1. injection E1 as <- <-.
-    destruct (OT Lbb) as (scalars & points & cts & Bc & Ec & Dc).
-    destruct (CW _ _ _ _ _ Bc) as (Ls & _ & _ & _).
+    destruct (OT Lbb) as (scalars & points & cts & Bc & Ls & Ec & Dc); [congruence|].
     unfold EvaluatorRound2. cbn [r1_name r1_sid r1_ax r1_ay].
     rewrite bytes_eqb_refl. cbn [guard bind]. rewrite Lbb, Nat.eqb_refl. cbn [guard bind].
     rewrite Bc. cbn [bind].
     unfold GarblerRound3. cbn [r2_sid gs_sid r2_choices]. rewrite N.eqb_refl. cbn [guard bind].
     rewrite Gb. cbn [bind]. rewrite Lba, Nat.eqb_refl. cbn [guard bind]. rewrite Ec. cbn [bind].
     unfold EvaluatorRound4. cbn [es_scalars es_sid r3_sid r3_cts r3_key r3_inputs r3_tables r3_hints].
-    rewrite Ls. change (negb (evaluatorCiphertextCount =? 0)%nat) with true. cbn [guard bind].
+    rewrite Ls, Lbb. change (negb (hashInputBitCount =? 0)%nat) with true. cbn [guard bind].
     rewrite N.eqb_refl. cbn [guard bind]. rewrite Dc. cbn [bind].
     destruct (garbled_eval_correct _ _ _ _ _ _ _ _ Gb Lba Lbb) as (outl & Ev & Dec).
     rewrite Ev. cbn [bind].
-    destruct (garble_wf _ _ _ _ _ _ Gb) as (_ & _ & Lo & _).
     rewrite Lo, Nat.eqb_refl. cbn [guard bind]. rewrite Dec. cbn [bind].
     destruct (bytes_bits_roundtrip_pad (circ_eval (bytesToBitsLittle a ++ bytesToBitsLittle b))) as (pad & _ & _ & _ & L).
     rewrite L, circ_out_len. change ((outputHintCount + 7) / 8 =? 32)%nat with true. reflexivity.
   Qed.
 
   (* with the (unproved, harness-checked) fact that the embedded circuit
-     computes SHA-256(a xor b): the evaluator outputs that digest, whatever the
-     restart points *)
+     computes SHA-256(a xor b) *)
   Variable sha256xor : bytes -> bytes -> bytes.
   Hypothesis circuit_computes_sha256xor : forall a b, length a = 32%nat -> length b = 32%nat ->
     circ_eval (bytesToBitsLittle a ++ bytesToBitsLittle b) = bytesToBitsLittle (sha256xor a b).
   Hypothesis sha256xor_bytes : forall a b, Forall (fun x => x < 256) (sha256xor a b).
 
-  Theorem protocol_sha256 g1 g2 e2 e3 w1 w2 w3 rg1 re2 rg3 a b :
+  Theorem protocol_sha256_plain rg1 re2 rg3 a b :
     length a = 32%nat -> length b = 32%nat ->
-    RUN g1 g2 e2 e3 w1 w2 w3 rg1 re2 rg3 a b = Ok (sha256xor a b).
+    RUN 0%nat 0%nat 0%nat 0%nat false false false rg1 re2 rg3 a b = Ok (sha256xor a b).
   Proof.
-    intros La Lb. rewrite resume_same, protocol_correct by assumption.
+    intros La Lb. rewrite protocol_correct by assumption.
     rewrite circuit_computes_sha256xor by assumption. rewrite bits_bytes_roundtrip by apply sha256xor_bytes.
     reflexivity.
   Qed.
-End Resume.
+End Correct.
+
+(* whatever the restart points: resume_same + protocol_sha256_plain *)
+Theorem protocol_sha256 RND c gen_sender read_sid build_choices read_key garble_circ encrypt_co decrypt_co
+        eval_circ decompress :
+  (forall rng, let '(a, (ax, ay), (ix, iy)) := gen_sender rng in Forall (fits (byteLen c)) [a; ax; ay; ix; iy]) ->
+  (forall rng, read_sid rng < 2 ^ 64) ->
+  (forall rng ax ay bits scalars points,
+     build_choices rng ax ay bits = Ok (scalars, points) ->
+     length scalars = evaluatorCiphertextCount /\ Forall (fits (byteLen c)) scalars /\
+     length points = evaluatorCiphertextCount /\ Forall (point_ok decompress c) points) ->
+  (forall rng, length (read_key rng) = garblingKeyBytes) ->
+  (forall rng key gin ein outw tables,
+     garble_circ rng key = Ok (gin, ein, outw, tables) ->
+     length gin = hashInputBitCount /\ Forall (fits2 16) gin /\
+     length outw = outputHintCount /\ Forall (fits2 16) outw /\
+     length tables = garbledTableLabelCount /\ Forall (fits 16) tables) ->
+  (forall st pts ein cts,
+     encrypt_co st pts ein = Ok cts -> length cts = evaluatorCiphertextCount /\ Forall (fits2 16) cts) ->
+  forall circ_eval : list bool -> list bool,
+  (forall rng key gin ein outw tables xa xb,
+     garble_circ rng key = Ok (gin, ein, outw, tables) ->
+     length xa = hashInputBitCount -> length xb = hashInputBitCount ->
+     exists outl,
+       eval_circ key (map (fun p => pick2 (fst p) (snd p)) (combine gin xa))
+                     (map (fun p => pick2 (fst p) (snd p)) (combine ein xb)) tables = Ok outl /\
+       decode_outputs outw outl = Ok (circ_eval (xa ++ xb))) ->
+  (forall rng key, exists gin ein outw tables,
+     garble_circ rng key = Ok (gin, ein, outw, tables) /\
+     length ein = hashInputBitCount /\ length outw = outputHintCount) ->
+  (forall rng1 rng2 sid sid' bits ein,
+     let '(a, (ax, ay), (ix, iy)) := gen_sender rng1 in
+     length bits = hashInputBitCount -> length ein = length bits ->
+     exists scalars points cts,
+       build_choices rng2 ax ay bits = Ok (scalars, points) /\
+       length scalars = length bits /\
+       encrypt_co (mkGS sid (curve_name c) a ax ay ix iy) points ein = Ok cts /\
+       decrypt_co (mkES sid' (curve_name c) ax ay scalars bits) cts
+       = Ok (map (fun p => pick2 (fst p) (snd p)) (combine ein bits))) ->
+  (forall x, length (circ_eval x) = outputHintCount) ->
+  forall sha256xor : bytes -> bytes -> bytes,
+  (forall a b, length a = 32%nat -> length b = 32%nat ->
+     circ_eval (bytesToBitsLittle a ++ bytesToBitsLittle b) = bytesToBitsLittle (sha256xor a b)) ->
+  (forall a b, Forall (fun x => x < 256) (sha256xor a b)) ->
+  forall g1 g2 e2 e3 w1 w2 w3 rg1 re2 rg3 a b,
+    length a = 32%nat -> length b = 32%nat ->
+    run_protocol RND c gen_sender read_sid build_choices read_key garble_circ encrypt_co decrypt_co
+                 eval_circ decompress g1 g2 e2 e3 w1 w2 w3 rg1 re2 rg3 a b
+    = Ok (sha256xor a b).
+Proof.
+  intros H1 H2 H3 H4 H5 H6 ce H7 H8 H9 H10 sx H11 H12 g1 g2 e2 e3 w1 w2 w3 rg1 re2 rg3 a b La Lb.
+  rewrite (resume_same RND c gen_sender read_sid build_choices read_key garble_circ encrypt_co decrypt_co
+             eval_circ decompress H1 H2 H3 H4 H5 H6).
+  apply (protocol_sha256_plain RND c gen_sender read_sid build_choices read_key garble_circ encrypt_co
+           decrypt_co eval_circ decompress ce H7 H8 H9 H10 sx H11 H12); assumption.
+Qed.
+
+
 
 (* ====================================================================== *)
-(* witnesses: the decoders accept byte strings that are not an encoder's
-   output (wrong total length), so "wrong length -> error" holds for Round3
-   only; and the well-formedness predicates are inhabited                  *)
+(* inversion: what an accepted byte string looks like                      *)
+
+Definition is_bytes (l : bytes) : Prop := Forall (fun b => b < 256) l.
+
+Lemma is_bytes_app a b : is_bytes (a ++ b) <-> is_bytes a /\ is_bytes b.
+Proof. apply Forall_app. Qed.
+
+Lemma read_full_inv k r a r' : read_full k r = Ok (a, r') -> r = a ++ r' /\ length a = k.
+Proof.
+  unfold read_full. destruct (k <=? length r)%nat eqn:E; [|discriminate].
+  intros H. apply Ok_inj in H. injection H as <- <-. apply Nat.leb_le in E.
+  split; [symmetry; apply firstn_skipn|]. rewrite firstn_length. lia.
+Qed.
+
+Lemma be_s_of_be_s : forall l, is_bytes l -> be_s (length l) (of_be_s l) = l.
+Proof.
+  intros l. rewrite be_s_be, of_be_s_of_be.
+  induction l as [|b l IH] using rev_ind; intros H; [reflexivity|].
+  apply is_bytes_app in H. destruct H as [Hl Hb]. inversion Hb as [|? ? Hb' _]; subst.
+  rewrite app_length, of_be_app. cbn [length]. rewrite Nat.add_comm. cbn [Nat.add be].
+  replace ((of_be l * 256 + b) / 256) with (of_be l) by (apply (N.div_unique _ 256 _ b); lia).
+  replace ((of_be l * 256 + b) mod 256) with b by (apply (N.mod_unique _ 256 (of_be l) b); lia).
+  rewrite IH by exact Hl. reflexivity.
+Qed.
+
+Lemma of_be_s_fits l : is_bytes l -> fits (length l) (of_be_s l).
+Proof.
+  rewrite of_be_s_of_be. unfold fits.
+  induction l as [|b l IH] using rev_ind; intros H; [cbn; lia|].
+  apply is_bytes_app in H. destruct H as [Hl Hb]. inversion Hb as [|? ? Hb' _]; subst.
+  rewrite app_length, of_be_app. cbn [length]. rewrite Nat.add_comm. cbn [Nat.add].
+  rewrite Nat2N.inj_succ, N.pow_succ_r'. specialize (IH Hl). lia.
+Qed.
+
+Lemma read_fixed_inv bl r v r' : read_fixed bl r = Ok (v, r') ->
+  exists f, r = f ++ r' /\ length f = bl /\ v = of_be_s f.
+Proof.
+  unfold read_fixed. intros H. apply bind_ok_inv in H. destruct H as ([f r1] & R & H).
+  apply Ok_inj in H. injection H as <- <-. apply read_full_inv in R. destruct R as [-> L].
+  exists f. repeat split; assumption.
+Qed.
+
+Lemma read_fixed_list_inv bl : forall k r vs r', read_fixed_list bl k r = Ok (vs, r') ->
+  exists fs, r = concat fs ++ r' /\ length fs = k /\ Forall (fun f => length f = bl) fs /\ vs = map of_be_s fs.
+Proof.
+  induction k as [|k IH]; intros r vs r' H; cbn [read_fixed_list] in H.
+  - apply Ok_inj in H. injection H as <- <-. exists []. repeat split; constructor.
+  - apply bind_ok_inv in H. destruct H as ([v r1] & R & H).
+    apply bind_ok_inv in H. destruct H as ([vs' r2] & R2 & H). apply Ok_inj in H. injection H as <- <-.
+    apply read_fixed_inv in R. destruct R as (f & -> & Lf & ->).
+    apply IH in R2. destruct R2 as (fs & -> & Lfs & Ffs & ->).
+    exists (f :: fs). cbn [concat map length]. rewrite <- app_assoc. repeat split; try congruence.
+    constructor; assumption.
+Qed.
+
+Lemma concat_length_fixed {A} bl (fs : list (list A)) :
+  Forall (fun f => length f = bl) fs -> length (concat fs) = (bl * length fs)%nat.
+Proof. induction 1 as [|f fs Hf _ IH]; [cbn; lia|]. cbn [concat length]. rewrite app_length, IH, Hf. lia. Qed.
+
+Lemma flat_map_be_s_of_be_s bl fs : Forall (fun f => length f = bl) fs -> is_bytes (concat fs) ->
+  flat_map (be_s bl) (map of_be_s fs) = concat fs /\ Forall (fits bl) (map of_be_s fs).
+Proof.
+  induction 1 as [|f fs Hf _ IH]; intros B; [split; constructor|].
+  cbn [concat] in B. apply is_bytes_app in B. destruct B as [Bf Bfs].
+  destruct (IH Bfs) as [E F]. cbn [map flat_map concat]. rewrite E. split.
+  - f_equal. rewrite <- Hf. apply be_s_of_be_s. exact Bf.
+  - constructor; [rewrite <- Hf; apply of_be_s_fits; exact Bf|exact F].
+Qed.
+
+(* ---- uvarint: what ReadUvarint consumed; if it consumed exactly as many
+   bytes as PutUvarint writes for the value, it consumed PutUvarint's bytes *)
+Lemma read_uvarint_from_inv : forall fuel i acc s r v r1,
+  read_uvarint_from i fuel acc s r = Ok (v, r1) -> acc < 2 ^ s ->
+  exists pre x, r = pre ++ r1 /\ pre <> [] /\ v = acc + x * 2 ^ s /\
+    (is_bytes r -> length pre = length (put_uvarint_fuel fuel x) -> pre = put_uvarint_fuel fuel x).
+Proof.
+  induction fuel as [|fuel IH]; intros i acc s r v r1 H Hacc; [discriminate|].
+  destruct r as [|b r']; [discriminate|]. rewrite read_uvarint_from_S in H.
+  destruct (b <? 128) eqn:Eb.
+  - destruct ((i =? 9)%nat && (1 <? b)); [discriminate|]. apply Ok_inj in H. injection H as <- <-.
+    exists [b], b. rewrite lor_shiftl_add by exact Hacc. repeat split; try discriminate.
+    intros _ _. rewrite put_uvarint_fuel_S, Eb. reflexivity.
+  - apply N.ltb_ge in Eb.
+    assert (Hm : N.land b 127 = b mod 128) by (change 127 with (N.ones 7); rewrite N.land_ones; reflexivity).
+    rewrite Hm in H. pose proof (N.mod_lt b 128 ltac:(lia)) as Hlt.
+    rewrite lor_shiftl_add in H by exact Hacc.
+    assert (P7 : 2 ^ (s + 7) = 2 ^ s * 128) by (rewrite N.pow_add_r; reflexivity).
+    assert (Hp : 0 < 2 ^ s) by (apply N.neq_0_lt_0, N.pow_nonzero; lia).
+    apply IH in H; [|rewrite P7; nia].
+    destruct H as (pre' & x' & -> & Hne & -> & Hmin).
+    exists (b :: pre'), (b mod 128 + 128 * x'). repeat split; try discriminate.
+    + rewrite P7. lia.
+    + intros B L. inversion B as [|? ? Bb Br]; subst. rewrite put_uvarint_fuel_S in *.
+      set (x := b mod 128 + 128 * x') in *.
+      assert (Xm : x mod 128 = b mod 128).
+      { unfold x. symmetry. apply (N.mod_unique _ 128 x' (b mod 128)); lia. }
+      assert (Xd : N.shiftr x 7 = x').
+      { rewrite N.shiftr_div_pow2. change (2 ^ 7) with 128. unfold x.
+        symmetry. apply (N.div_unique _ 128 x' (b mod 128)); lia. }
+      destruct (x <? 128) eqn:Ex.
+      * cbn [length] in L. destruct pre'; [contradiction|discriminate].
+      * assert (Hb : N.lor (N.land x 127) 128 = b).
+        { change 127 with (N.ones 7). rewrite N.land_ones. change (2 ^ 7) with 128.
+          rewrite Xm, lor_128 by exact Hlt.
+          pose proof (N.div_mod b 128 ltac:(lia)) as D.
+          assert (b / 128 = 1) by (apply N.le_antisymm; [apply N.lt_succ_r; apply N.div_lt_upper_bound; lia|apply N.div_le_lower_bound; lia]).
+          lia. }
+        rewrite Hb, Xd in *. f_equal. cbn [length] in L. apply Hmin; [exact Br|lia].
+Qed.
+
+Lemma read_chunk_inv r d rest : read_chunk r = Ok (d, rest) ->
+  exists pre, r = pre ++ d ++ rest /\ length pre = length (put_uvarint (N.of_nat (length d))) /\
+    N.of_nat (length d) <= chunkSizeLimit /\
+    (is_bytes r -> pre = put_uvarint (N.of_nat (length d))).
+Proof.
+  unfold read_chunk. intros H. apply bind_ok_inv in H. destruct H as ([n r1] & U & H).
+  apply bind_ok_inv in H. destruct H as (u & G & H). apply guard_ok_inv in G. apply Nat.eqb_eq in G.
+  destruct (chunkSizeLimit <? n) eqn:E1; [discriminate|]. apply N.ltb_ge in E1.
+  destruct (N.of_nat (length r1) <? n) eqn:E2; [discriminate|]. apply N.ltb_ge in E2.
+  destruct r1 as [|b0 r1'] eqn:Er1; [discriminate|]. rewrite <- Er1 in *. clear Er1.
+  apply Ok_inj in H. injection H as <- <-.
+  unfold read_uvarint in U. apply read_uvarint_from_inv in U; [|cbn; lia].
+  destruct U as (pre & x & -> & Hne & Hv & Hmin). rewrite N.mul_1_r, N.add_0_l in Hv. subst x.
+  rewrite app_length in G. replace (length pre + length r1 - length r1)%nat with (length pre) in G by lia.
+  assert (Ln : length (firstn (N.to_nat n) r1) = N.to_nat n) by (rewrite firstn_length; lia).
+  rewrite Ln, N2Nat.id. exists pre. rewrite firstn_skipn. repeat split; try assumption.
+  intros B. apply Hmin; assumption.
+Qed.
+
+Lemma put_uvarint_small n : n < 128 -> put_uvarint n = [n].
+Proof. intros H. unfold put_uvarint. rewrite put_uvarint_fuel_S. replace (n <? 128) with true by (symmetry; apply N.ltb_lt; exact H). reflexivity. Qed.
+
+Lemma no_trailing_inv r u : no_trailing r = Ok u -> r = [].
+Proof. unfold no_trailing. intros H. apply guard_ok_inv in H. apply Nat.eqb_eq in H. destruct r; [reflexivity|discriminate]. Qed.
+
+Lemma guard_eqb_inv a b u : guard (bytes_eqb a b) = Ok u -> a = b.
+Proof. intros H. apply guard_ok_inv in H. apply bytes_eqb_eq. exact H. Qed.
+
+Lemma put_uvarint_5 : put_uvarint 5 = [5].
+Proof. reflexivity. Qed.
+
+(* the curve-name chunk *)
+Lemma read_name_chunk_inv c r name rest : read_chunk r = Ok (name, rest) -> name = curve_name c ->
+  exists pre, r = pre ++ curve_name c ++ rest /\ length pre = 1%nat /\ (is_bytes r -> pre = [5]).
+Proof.
+  intros H ->. apply read_chunk_inv in H. destruct H as (pre & -> & L & _ & M).
+  rewrite curve_name_length in *. change (N.of_nat 5) with 5 in *. rewrite put_uvarint_5 in *.
+  exists pre. repeat split; assumption.
+Qed.
+
+(* ---- Round 1 *)
+Lemma r1_inv c bs m : DecodeRound1 c bs = Ok m ->
+  exists sid8 pre x y,
+    bs = magicRound1 ++ sid8 ++ pre ++ curve_name c ++ x ++ y /\
+    length sid8 = 8%nat /\ length pre = 1%nat /\ length x = byteLen c /\ length y = byteLen c /\
+    m = mkR1 (of_be_s sid8) (curve_name c) (of_be_s x) (of_be_s y) /\
+    (is_bytes bs -> pre = [5]).
+Proof.
+  unfold DecodeRound1. intros H.
+  apply bind_ok_inv in H. destruct H as ([magic r1] & R1 & H). apply read_full_inv in R1. destruct R1 as [-> Lm].
+  apply bind_ok_inv in H. destruct H as (u1 & G1 & H). apply guard_eqb_inv in G1. subst magic.
+  apply bind_ok_inv in H. destruct H as ([sid r2] & R2 & H). apply read_full_inv in R2. destruct R2 as [-> Ls].
+  apply bind_ok_inv in H. destruct H as ([[[name x] y] rest] & D & H).
+  apply bind_ok_inv in H. destruct H as (u2 & G2 & H). apply guard_eqb_inv in G2.
+  apply bind_ok_inv in H. destruct H as (u3 & T & H). apply no_trailing_inv in T. subst rest.
+  apply Ok_inj in H. subst m.
+  unfold decodeOTSetup in D.
+  apply bind_ok_inv in D. destruct D as ([name' r3] & C & D).
+  apply bind_ok_inv in D. destruct D as (u4 & G4 & D). apply guard_eqb_inv in G4.
+  apply bind_ok_inv in D. destruct D as ([xv r4] & X & D). apply read_fixed_inv in X. destruct X as (fx & -> & Lx & ->).
+  apply bind_ok_inv in D. destruct D as ([yv r5] & Y & D). apply read_fixed_inv in Y. destruct Y as (fy & -> & Ly & ->).
+  apply Ok_inj in D. injection D as E1 E2 E3 E4. subst name x y r5.
+  destruct (read_name_chunk_inv c _ _ _ C G4) as (pre & -> & Lp & M).
+  rewrite !app_nil_r in *.
+  exists sid, pre, fx, fy. subst name'. repeat split; try assumption.
+  intros B. apply M. apply is_bytes_app in B. destruct B as [_ B]. apply is_bytes_app in B. destruct B as [_ B]. exact B.
+Qed.
+
+Theorem r1_accept_length c bs m : DecodeRound1 c bs = Ok m -> length bs = (16 + 2 * byteLen c)%nat.
+Proof.
+  intros H. apply r1_inv in H. destruct H as (sid8 & pre & x & y & -> & Ls & Lp & Lx & Ly & _).
+  rewrite !app_length, curve_name_length, Ls, Lp, Lx, Ly. change (length magicRound1) with 2%nat. lia.
+Qed.
+
+Theorem r1_canonical c bs m : is_bytes bs -> DecodeRound1 c bs = Ok m ->
+  EncodeRound1 c m = Ok bs /\ wf_r1 c m.
+Proof.
+  intros B H. apply r1_inv in H. destruct H as (sid8 & pre & x & y & E & Ls & Lp & Lx & Ly & -> & M).
+  specialize (M B). subst pre bs.
+  apply is_bytes_app in B. destruct B as [_ B]. apply is_bytes_app in B. destruct B as [Bs B].
+  apply is_bytes_app in B. destruct B as [_ B]. apply is_bytes_app in B. destruct B as [_ B].
+  apply is_bytes_app in B. destruct B as [Bx By].
+  assert (Fx : fits (byteLen c) (of_be_s x)) by (rewrite <- Lx; apply of_be_s_fits; exact Bx).
+  assert (Fy : fits (byteLen c) (of_be_s y)) by (rewrite <- Ly; apply of_be_s_fits; exact By).
+  split.
+  - unfold EncodeRound1, encodeOTSetup. cbn [r1_sid r1_name r1_ax r1_ay]. rewrite check_name_ok. cbn [bind].
+    rewrite !write_fixed_ok by assumption. cbn [bind]. rewrite write_chunk_name.
+    rewrite <- Ls, <- Lx at 1. rewrite <- Ly at 1. rewrite !be_s_of_be_s by assumption. reflexivity.
+  - repeat split; cbn [r1_sid r1_name r1_ax r1_ay]; try assumption.
+    pose proof (of_be_s_fits sid8 Bs) as F. rewrite Ls in F. exact F.
+Qed.
+
+(* ---- garbler session *)
+Lemma put_uvarint_len2 c : length (put_uvarint (N.of_nat (6 + 5 * byteLen c))) = 2%nat.
+Proof. destruct c; reflexivity. Qed.
+
+Lemma gs_inv c bs s : DecodeGarblerSession c bs = Ok s ->
+  exists sid8 pre1 pre2 fs,
+    let chunk := pre2 ++ curve_name c ++ concat fs in
+    bs = magicGarblerSession ++ sid8 ++ pre1 ++ chunk /\
+    length sid8 = 8%nat /\ length pre2 = 1%nat /\ length fs = 5%nat /\
+    Forall (fun f => length f = byteLen c) fs /\
+    length pre1 = length (put_uvarint (N.of_nat (length chunk))) /\
+    (exists a b c0 d e, map of_be_s fs = [a; b; c0; d; e] /\ s = mkGS (of_be_s sid8) (curve_name c) a b c0 d e) /\
+    (is_bytes bs -> pre2 = [5] /\ pre1 = put_uvarint (N.of_nat (length chunk))).
+Proof.
+  unfold DecodeGarblerSession. intros H.
+  apply bind_ok_inv in H. destruct H as ([magic r1] & R1 & H). apply read_full_inv in R1. destruct R1 as [-> Lm].
+  apply bind_ok_inv in H. destruct H as (u1 & G1 & H). apply guard_eqb_inv in G1. subst magic.
+  apply bind_ok_inv in H. destruct H as ([sid r2] & R2 & H). apply read_full_inv in R2. destruct R2 as [-> Ls].
+  apply bind_ok_inv in H. destruct H as ([chunk rest] & C & H).
+  apply bind_ok_inv in H. destruct H as (u3 & T & H). apply no_trailing_inv in T. subst rest.
+  apply read_chunk_inv in C. destruct C as (pre1 & -> & L1 & _ & M1).
+  unfold decodeCOSenderSetup in H.
+  apply bind_ok_inv in H. destruct H as ([name r3] & C2 & H).
+  apply bind_ok_inv in H. destruct H as (u4 & G4 & H). apply guard_eqb_inv in G4.
+  apply bind_ok_inv in H. destruct H as ([vs rest] & F & H).
+  apply bind_ok_inv in H. destruct H as (u5 & T & H). apply no_trailing_inv in T. subst rest.
+  apply read_fixed_list_inv in F. destruct F as (fs & -> & Lfs & Ffs & ->).
+  destruct (read_name_chunk_inv c _ _ _ C2 G4) as (pre2 & -> & Lp2 & M2). subst name.
+  rewrite !app_nil_r in *.
+  exists sid, pre1, pre2, fs. cbv zeta. repeat split; try assumption.
+  - destruct (map of_be_s fs) as [|a [|b [|c0 [|d [|e [|? ?]]]]]] eqn:E; try discriminate.
+    apply Ok_inj in H. subst s. do 5 eexists. split; reflexivity.
+  - apply M2. apply is_bytes_app in H0. destruct H0 as [_ B]. apply is_bytes_app in B. destruct B as [_ B].
+    apply is_bytes_app in B. destruct B as [_ B]. exact B.
+  - apply M1. apply is_bytes_app in H0. destruct H0 as [_ B]. apply is_bytes_app in B. destruct B as [_ B]. exact B.
+Qed.
+
+Theorem gs_accept_length c bs s : DecodeGarblerSession c bs = Ok s -> length bs = (18 + 5 * byteLen c)%nat.
+Proof.
+  intros H. apply gs_inv in H. destruct H as (sid8 & pre1 & pre2 & fs & H). cbv zeta in H.
+  destruct H as (-> & Ls & Lp2 & Lfs & Ffs & L1 & _).
+  assert (Lc : length (pre2 ++ curve_name c ++ concat fs) = (6 + 5 * byteLen c)%nat).
+  { rewrite !app_length, curve_name_length, Lp2, (concat_length_fixed _ _ Ffs), Lfs. lia. }
+  rewrite Lc, put_uvarint_len2 in L1.
+  rewrite app_length, app_length, app_length, Lc, Ls, L1. change (length magicGarblerSession) with 2%nat. lia.
+Qed.
+
+Theorem gs_canonical c bs s : is_bytes bs -> DecodeGarblerSession c bs = Ok s ->
+  EncodeGarblerSession c s = Ok bs /\ wf_gs c s.
+Proof.
+  intros B H. apply gs_inv in H. destruct H as (sid8 & pre1 & pre2 & fs & H). cbv zeta in H.
+  destruct H as (E & Ls & Lp2 & Lfs & Ffs & L1 & (a & b & c0 & d & e & Em & ->) & M).
+  destruct (M B) as [-> ->]. subst bs.
+  apply is_bytes_app in B. destruct B as [_ B]. apply is_bytes_app in B. destruct B as [Bs B].
+  apply is_bytes_app in B. destruct B as [_ B]. apply is_bytes_app in B. destruct B as [_ B].
+  apply is_bytes_app in B. destruct B as [_ B].
+  destruct (flat_map_be_s_of_be_s _ _ Ffs B) as [Ef Ff]. rewrite Em in Ef, Ff.
+  split.
+  - unfold EncodeGarblerSession, encodeCOSenderSetup. cbn [gs_sid gs_name gs_scalar gs_ax gs_ay gs_ainvx gs_ainvy].
+    rewrite check_name_ok. cbn [bind]. rewrite write_fixed_list_ok by exact Ff. cbn [bind].
+    rewrite Ef, write_chunk_name. rewrite <- Ls at 1. rewrite be_s_of_be_s by exact Bs. reflexivity.
+  - repeat split; cbn [gs_sid gs_name gs_scalar gs_ax gs_ay gs_ainvx gs_ainvy]; try assumption.
+    pose proof (of_be_s_fits sid8 Bs) as F. rewrite Ls in F. exact F.
+Qed.
+
+(* ---- evaluator session *)
+Lemma put_uvarint_len_es c : length (put_uvarint (N.of_nat (38 + 258 * byteLen c))) = match c with P521 => 3 | _ => 2 end%nat.
+Proof. destruct c; reflexivity. Qed.
+
+Lemma es_inv c bs s : DecodeEvaluatorSession c bs = Ok s ->
+  exists sid8 pre1 pre2 fa fsc raw,
+    let chunk := pre2 ++ curve_name c ++ concat fa ++ concat fsc ++ raw in
+    bs = magicEvalSession ++ sid8 ++ pre1 ++ chunk /\
+    length sid8 = 8%nat /\ length pre2 = 1%nat /\ length fa = 2%nat /\ length fsc = evaluatorCiphertextCount /\
+    Forall (fun f => length f = byteLen c) fa /\ Forall (fun f => length f = byteLen c) fsc /\
+    length raw = evaluatorChoiceSignBytes /\
+    length pre1 = length (put_uvarint (N.of_nat (length chunk))) /\
+    s = mkES (of_be_s sid8) (curve_name c) (nth 0 (map of_be_s fa) 0) (nth 1 (map of_be_s fa) 0)
+             (map of_be_s fsc) (firstn evaluatorCiphertextCount (bytesToBitsLittle raw)) /\
+    (is_bytes bs -> pre2 = [5] /\ pre1 = put_uvarint (N.of_nat (length chunk))).
+Proof.
+  unfold DecodeEvaluatorSession. intros H.
+  apply bind_ok_inv in H. destruct H as ([magic r1] & R1 & H). apply read_full_inv in R1. destruct R1 as [-> Lm].
+  apply bind_ok_inv in H. destruct H as (u1 & G1 & H). apply guard_eqb_inv in G1. subst magic.
+  apply bind_ok_inv in H. destruct H as ([sid r2] & R2 & H). apply read_full_inv in R2. destruct R2 as [-> Ls].
+  apply bind_ok_inv in H. destruct H as ([chunk rest] & C & H).
+  apply bind_ok_inv in H. destruct H as (u3 & T & H). apply no_trailing_inv in T. subst rest.
+  apply read_chunk_inv in C. destruct C as (pre1 & -> & L1 & _ & M1).
+  unfold decodeChoiceBundle in H.
+  apply bind_ok_inv in H. destruct H as ([name r3] & C2 & H).
+  apply bind_ok_inv in H. destruct H as (u4 & G4 & H). apply guard_eqb_inv in G4.
+  apply bind_ok_inv in H. destruct H as ([va r4] & Fa & H).
+  apply bind_ok_inv in H. destruct H as ([vsc r5] & Fs & H).
+  apply bind_ok_inv in H. destruct H as ([raw rest] & Rr & H).
+  apply bind_ok_inv in H. destruct H as (u5 & T & H). apply no_trailing_inv in T. subst rest.
+  apply bind_ok_inv in H. destruct H as (u6 & _ & H). apply Ok_inj in H. subst s.
+  apply read_fixed_list_inv in Fa. destruct Fa as (fa & -> & Lfa & Ffa & ->).
+  apply read_fixed_list_inv in Fs. destruct Fs as (fsc & -> & Lfsc & Ffsc & ->).
+  apply read_full_inv in Rr. destruct Rr as [-> Lraw].
+  destruct (read_name_chunk_inv c _ _ _ C2 G4) as (pre2 & -> & Lp2 & M2). subst name.
+  rewrite !app_nil_r in *.
+  exists sid, pre1, pre2, fa, fsc, raw. cbv zeta. repeat split; try assumption.
+  - apply M2. apply is_bytes_app in H. destruct H as [_ B]. apply is_bytes_app in B. destruct B as [_ B].
+    apply is_bytes_app in B. destruct B as [_ B]. exact B.
+  - apply M1. apply is_bytes_app in H. destruct H as [_ B]. apply is_bytes_app in B. destruct B as [_ B]. exact B.
+Qed.
+
+Theorem es_accept_length c bs s : DecodeEvaluatorSession c bs = Ok s -> length bs = es_len c.
+Proof.
+  intros H. apply es_inv in H. destruct H as (sid8 & pre1 & pre2 & fa & fsc & raw & H). cbv zeta in H.
+  destruct H as (-> & Ls & Lp2 & Lfa & Lfsc & Ffa & Ffsc & Lraw & L1 & _).
+  assert (Lc : length (pre2 ++ curve_name c ++ concat fa ++ concat fsc ++ raw) = (38 + 258 * byteLen c)%nat).
+  { rewrite !app_length, curve_name_length, Lp2, (concat_length_fixed _ _ Ffa), (concat_length_fixed _ _ Ffsc), Lfa, Lfsc, Lraw.
+    change evaluatorCiphertextCount with 256%nat. change evaluatorChoiceSignBytes with 32%nat. lia. }
+  rewrite Lc, put_uvarint_len_es in L1.
+  rewrite app_length, app_length, app_length, Lc, Ls, L1. change (length magicEvalSession) with 2%nat.
+  unfold es_len. destruct c; lia.
+Qed.
+
+Theorem es_canonical c bs s : is_bytes bs -> DecodeEvaluatorSession c bs = Ok s ->
+  EncodeEvaluatorSession c s = Ok bs /\ wf_es c s.
+Proof.
+  intros B H. apply es_inv in H. destruct H as (sid8 & pre1 & pre2 & fa & fsc & raw & H). cbv zeta in H.
+  destruct H as (E & Ls & Lp2 & Lfa & Lfsc & Ffa & Ffsc & Lraw & L1 & -> & M).
+  destruct (M B) as [-> ->]. subst bs.
+  apply is_bytes_app in B. destruct B as [_ B]. apply is_bytes_app in B. destruct B as [Bs B].
+  apply is_bytes_app in B. destruct B as [_ B]. apply is_bytes_app in B. destruct B as [_ B].
+  apply is_bytes_app in B. destruct B as [_ B]. apply is_bytes_app in B. destruct B as [Ba B].
+  apply is_bytes_app in B. destruct B as [Bsc Braw].
+  destruct (flat_map_be_s_of_be_s _ _ Ffa Ba) as [Efa Ffa'].
+  destruct (flat_map_be_s_of_be_s _ _ Ffsc Bsc) as [Efsc Ffsc'].
+  assert (Lbits : length (bytesToBitsLittle raw) = evaluatorCiphertextCount).
+  { rewrite bytesToBitsLittle_length, Lraw. reflexivity. }
+  assert (Ebits : firstn evaluatorCiphertextCount (bytesToBitsLittle raw) = bytesToBitsLittle raw).
+  { rewrite <- Lbits. apply firstn_all. }
+  rewrite Ebits.
+  destruct fa as [|f0 [|f1 [|? ?]]]; try discriminate. cbn [map nth] in *.
+  assert (Efa2 : flat_map (be_s (byteLen c)) [of_be_s f0; of_be_s f1] = concat [f0; f1]) by exact Efa.
+  split.
+  - unfold EncodeEvaluatorSession, encodeChoiceBundle. cbn [es_sid es_name es_ax es_ay es_scalars es_bits].
+    rewrite check_name_ok. cbn [bind]. rewrite write_fixed_list_ok by exact Ffa'. cbn [bind].
+    rewrite map_length, Lfsc, Lbits, Nat.eqb_refl. cbn [guard bind].
+    rewrite write_fixed_list_ok by exact Ffsc'. cbn [bind].
+    rewrite (bits_bytes_roundtrip raw Braw), Lraw, Nat.eqb_refl. cbn [guard bind].
+    rewrite Efa2, Efsc, write_chunk_name. rewrite <- Ls at 1. rewrite be_s_of_be_s by exact Bs. reflexivity.
+  - inversion Ffa' as [|? ? F0 F1']; subst. inversion F1' as [|? ? F1 _]; subst.
+    repeat split; cbn [es_sid es_name es_ax es_ay es_scalars es_bits]; try assumption.
+    + pose proof (of_be_s_fits sid8 Bs) as F. rewrite Ls in F. exact F.
+    + rewrite map_length. exact Lfsc.
+Qed.
+
+(* ---- Round 2 and Round 3: the exact length is checked by the decoder *)
+Theorem r2_accept_length dec c bs m : DecodeRound2 dec c bs = Ok m -> length bs = (48 + 256 * byteLen c)%nat.
+Proof.
+  unfold DecodeRound2. intros H.
+  apply bind_ok_inv in H. destruct H as ([magic r1] & R1 & H). apply read_full_inv in R1. destruct R1 as [-> Lm].
+  apply bind_ok_inv in H. destruct H as (u1 & G1 & H).
+  apply bind_ok_inv in H. destruct H as ([sid r2] & R2 & H). apply read_full_inv in R2. destruct R2 as [-> Ls].
+  apply bind_ok_inv in H. destruct H as ([name rest] & C & H).
+  apply bind_ok_inv in H. destruct H as (u2 & G2 & H). apply guard_eqb_inv in G2.
+  apply bind_ok_inv in H. destruct H as (pts & D & H).
+  destruct (read_name_chunk_inv c _ _ _ C G2) as (pre & -> & Lp & _).
+  unfold decodePoints in D. apply bind_ok_inv in D. destruct D as (u3 & G3 & _).
+  apply guard_ok_inv in G3. apply Nat.eqb_eq in G3.
+  rewrite !app_length, curve_name_length, Lm, Ls, Lp, G3.
+  change evaluatorCiphertextCount with 256%nat. change evaluatorChoiceSignBytes with 32%nat. lia.
+Qed.
+
+Theorem r3_accept_length bs m : DecodeRound3 bs = Ok m -> length bs = round3PayloadLen.
+Proof.
+  intros H. destruct (Nat.eq_dec (length bs) round3PayloadLen) as [E|E]; [exact E|].
+  rewrite (reject_length_r3 bs E) in H. discriminate.
+Qed.
+
+(* ---- C18_reject_length: wrong total length => error, every byte string, all five decoders *)
+Lemma not_ok_err {A} (r : res A) : not_panic r -> (forall a, r <> Ok a) -> r = Err.
+Proof. destruct r; intros H1 H2; [exfalso; apply (H2 a); reflexivity|reflexivity|exfalso; apply H1; reflexivity]. Qed.
+
+Theorem reject_length dec c bs :
+  (length bs <> (16 + 2 * byteLen c)%nat -> DecodeRound1 c bs = Err) /\
+  (length bs <> (48 + 256 * byteLen c)%nat -> DecodeRound2 dec c bs = Err) /\
+  (length bs <> round3PayloadLen -> DecodeRound3 bs = Err) /\
+  (length bs <> (18 + 5 * byteLen c)%nat -> DecodeGarblerSession c bs = Err) /\
+  (length bs <> es_len c -> DecodeEvaluatorSession c bs = Err).
+Proof.
+  repeat split; intros H.
+  - apply not_ok_err; [apply no_panic_r1|]. intros m E. apply H. eapply r1_accept_length; exact E.
+  - apply not_ok_err; [apply no_panic_r2|]. intros m E. apply H. eapply r2_accept_length; exact E.
+  - apply reject_length_r3; exact H.
+  - apply not_ok_err; [apply no_panic_gs|]. intros m E. apply H. eapply gs_accept_length; exact E.
+  - apply not_ok_err; [apply no_panic_es|]. intros m E. apply H. eapply es_accept_length; exact E.
+Qed.
+
+(* a strict prefix (and any strict extension) of a valid encoding is rejected *)
+Theorem reject_strict_prefix dec c :
+  (forall m b p, wf_r1 c m -> EncodeRound1 c m = Ok b -> length p <> length b -> DecodeRound1 c p = Err) /\
+  (forall m b p, wf_r2 dec c m -> EncodeRound2 c m = Ok b -> length p <> length b -> DecodeRound2 dec c p = Err) /\
+  (forall m b p, wf_r3 m -> EncodeRound3 m = Ok b -> length p <> length b -> DecodeRound3 p = Err) /\
+  (forall s b p, wf_gs c s -> EncodeGarblerSession c s = Ok b -> length p <> length b -> DecodeGarblerSession c p = Err) /\
+  (forall s b p, wf_es c s -> EncodeEvaluatorSession c s = Ok b -> length p <> length b -> DecodeEvaluatorSession c p = Err).
+Proof.
+  repeat split; intros m b p W E L.
+  - destruct (r1_roundtrip c m W) as (b' & E' & _ & Lb). rewrite E in E'. apply Ok_inj in E'. subst b'.
+    apply (reject_length dec c p). congruence.
+  - destruct (r2_roundtrip dec c m W) as (b' & E' & _ & Lb). rewrite E in E'. apply Ok_inj in E'. subst b'.
+    apply (reject_length dec c p). congruence.
+  - destruct (r3_roundtrip m W) as (b' & E' & _ & Lb). rewrite E in E'. apply Ok_inj in E'. subst b'.
+    apply (reject_length dec c p). congruence.
+  - destruct (gs_roundtrip c m W) as (b' & E' & _ & Lb). rewrite E in E'. apply Ok_inj in E'. subst b'.
+    apply (reject_length dec c p). congruence.
+  - destruct (es_roundtrip c m W) as (b' & E' & _ & Lb). rewrite E in E'. apply Ok_inj in E'. subst b'.
+    apply (reject_length dec c p). congruence.
+Qed.
+
+(* ====================================================================== *)
+(* regression records.  The decoders as they were before the fixes in /repo
+   (832c61e minimal uvarint in readChunk, ad7f790 io.ReadFull + trailing
+   check in decodeChoiceBundle, 19366c8 trailing-byte checks): the witnesses
+   that refuted "wrong length => error" then, and are rejected now.        *)
+
+Definition read_chunk_old (r : bytes) : res (bytes * bytes) :=
+  '(n, r1) <- read_uvarint r ;;
+  if chunkSizeLimit <? n then Err
+  else if N.of_nat (length r1) <? n then Err
+  else match r1 with
+       | [] => Err
+       | _ => Ok (firstn (N.to_nat n) r1, skipn (N.to_nat n) r1)
+       end.
+
+(* a single bytes.Reader.Read: fewer bytes without an error *)
+Definition reader_read (k : nat) (r : bytes) : res (bytes * bytes) :=
+  match r with
+  | [] => Err
+  | _ => let got := firstn k r in Ok (got ++ repeat 0 (k - length got), skipn k r)
+  end.
+
+Definition DecodeRound1_old (c : curve) (data : bytes) : res round1 :=
+  '(magic, r1) <- read_full 2 data ;;
+  _ <- guard (bytes_eqb magic magicRound1) ;;
+  '(sid, r2) <- read_full 8 r1 ;;
+  '(name, r3) <- read_chunk_old r2 ;;
+  _ <- guard (bytes_eqb name (curve_name c)) ;;
+  '(x, r4) <- read_fixed (byteLen c) r3 ;;
+  '(y, _) <- read_fixed (byteLen c) r4 ;;
+  Ok (mkR1 (of_be_s sid) name x y).
+
+Definition DecodeRound2_old dec (c : curve) (data : bytes) : res round2 :=
+  '(magic, r1) <- read_full 2 data ;;
+  _ <- guard (bytes_eqb magic magicRound2) ;;
+  '(sid, r2) <- read_full 8 r1 ;;
+  '(name, rest) <- read_chunk_old r2 ;;
+  _ <- guard (bytes_eqb name (curve_name c)) ;;
+  pts <- decodePoints dec c rest ;;
+  Ok (mkR2 (of_be_s sid) name pts).
+
+Definition DecodeGarblerSession_old (c : curve) (data : bytes) : res gsession :=
+  '(magic, r1) <- read_full 2 data ;;
+  _ <- guard (bytes_eqb magic magicGarblerSession) ;;
+  '(sid, r2) <- read_full 8 r1 ;;
+  '(chunk, _) <- read_chunk_old r2 ;;
+  '(name, r3) <- read_chunk_old chunk ;;
+  _ <- guard (bytes_eqb name (curve_name c)) ;;
+  '(fs, _) <- read_fixed_list (byteLen c) 5 r3 ;;
+  match fs with
+  | [s; ax; ay; ix; iy] => Ok (mkGS (of_be_s sid) name s ax ay ix iy)
+  | _ => Err
+  end.
+
+Definition DecodeEvaluatorSession_old (c : curve) (data : bytes) : res esession :=
+  '(magic, r1) <- read_full 2 data ;;
+  _ <- guard (bytes_eqb magic magicEvalSession) ;;
+  '(sid, r2) <- read_full 8 r1 ;;
+  '(chunk, _) <- read_chunk_old r2 ;;
+  '(name, r3) <- read_chunk_old chunk ;;
+  _ <- guard (bytes_eqb name (curve_name c)) ;;
+  '(a, r4) <- read_fixed_list (byteLen c) 2 r3 ;;
+  '(scalars, r5) <- read_fixed_list (byteLen c) evaluatorCiphertextCount r4 ;;
+  '(raw, _) <- reader_read evaluatorChoiceSignBytes r5 ;;
+  Ok (mkES (of_be_s sid) name (nth 0 a 0) (nth 1 a 0) scalars
+           (firstn evaluatorCiphertextCount (bytesToBitsLittle raw))).
 
 Definition r1_trailing : bytes :=
   magicRound1 ++ be_s 8 7 ++ write_chunk (curve_name P224) ++ repeat 0 56 ++ [9].
-Example r1_trailing_accepted :
-  DecodeRound1 P224 r1_trailing = Ok (mkR1 7 (curve_name P224) 0 0) /\
-  (length r1_trailing =? 16 + 2 * byteLen P224)%nat = false.
-Proof. vm_compute. split; reflexivity. Qed.
+Example r1_trailing_record :
+  DecodeRound1_old P224 r1_trailing = Ok (mkR1 7 (curve_name P224) 0 0) /\
+  (length r1_trailing =? 16 + 2 * byteLen P224)%nat = false /\
+  DecodeRound1 P224 r1_trailing = Err.
+Proof. vm_compute. repeat split; reflexivity. Qed.
 
 (* Round2 with the curve-name length written as the two-byte uvarint 0x85 0x00 *)
 Definition dec_any : curve -> N -> bool -> option (N * N) := fun _ x odd => Some (x, if odd then 1 else 0).
 Definition r2_nonminimal : bytes :=
   magicRound2 ++ be_s 8 7 ++ [133; 0] ++ curve_name P224 ++ repeat 0 (256 * 28) ++ repeat 0 32.
-Example r2_nonminimal_accepted :
-  DecodeRound2 dec_any P224 r2_nonminimal = Ok (mkR2 7 (curve_name P224) (repeat (0, 0) 256)) /\
-  (length r2_nonminimal =? 48 + 256 * byteLen P224)%nat = false.
-Proof. vm_compute. split; reflexivity. Qed.
+Example r2_nonminimal_record :
+  DecodeRound2_old dec_any P224 r2_nonminimal = Ok (mkR2 7 (curve_name P224) (repeat (0, 0) 256)) /\
+  (length r2_nonminimal =? 48 + 256 * byteLen P224)%nat = false /\
+  DecodeRound2 dec_any P224 r2_nonminimal = Err.
+Proof. vm_compute. repeat split; reflexivity. Qed.
 
 Definition gs_trailing : bytes :=
   magicGarblerSession ++ be_s 8 7 ++ write_chunk (write_chunk (curve_name P224) ++ repeat 0 140) ++ [9].
-Example gs_trailing_accepted :
-  DecodeGarblerSession P224 gs_trailing = Ok (mkGS 7 (curve_name P224) 0 0 0 0 0) /\
-  (length gs_trailing =? 18 + 5 * byteLen P224)%nat = false.
-Proof. vm_compute. split; reflexivity. Qed.
+Example gs_trailing_record :
+  DecodeGarblerSession_old P224 gs_trailing = Ok (mkGS 7 (curve_name P224) 0 0 0 0 0) /\
+  (length gs_trailing =? 18 + 5 * byteLen P224)%nat = false /\
+  DecodeGarblerSession P224 gs_trailing = Err.
+Proof. vm_compute. repeat split; reflexivity. Qed.
 
 (* evaluator session whose choice-bit field holds 1 byte instead of 32 *)
 Definition es_short : bytes :=
   magicEvalSession ++ be_s 8 7
   ++ write_chunk (write_chunk (curve_name P224) ++ repeat 0 (258 * 28) ++ [255]).
-Example es_short_accepted :
-  DecodeEvaluatorSession P224 es_short
+Example es_short_record :
+  DecodeEvaluatorSession_old P224 es_short
   = Ok (mkES 7 (curve_name P224) 0 0 (repeat 0 256) (repeat true 8 ++ repeat false 248)) /\
-  (length es_short <? es_len P224)%nat = true.
-Proof. vm_compute. split; reflexivity. Qed.
-
-Theorem reject_length_refuted :
-  (exists c data m, DecodeRound1 c data = Ok m /\ length data <> (16 + 2 * byteLen c)%nat) /\
-  (exists dec c data m, DecodeRound2 dec c data = Ok m /\ length data <> (48 + 256 * byteLen c)%nat) /\
-  (exists c data s, DecodeGarblerSession c data = Ok s /\ length data <> (18 + 5 * byteLen c)%nat) /\
-  (exists c data s, DecodeEvaluatorSession c data = Ok s /\ (length data < es_len c)%nat).
-Proof.
-  split; [|split; [|split]].
-  - exists P224, r1_trailing, (mkR1 7 (curve_name P224) 0 0). destruct r1_trailing_accepted as (A & B).
-    split; [exact A|]. apply Nat.eqb_neq. exact B.
-  - exists dec_any, P224, r2_nonminimal, (mkR2 7 (curve_name P224) (repeat (0, 0) 256)).
-    destruct r2_nonminimal_accepted as (A & B). split; [exact A|]. apply Nat.eqb_neq. exact B.
-  - exists P224, gs_trailing, (mkGS 7 (curve_name P224) 0 0 0 0 0).
-    destruct gs_trailing_accepted as (A & B). split; [exact A|]. apply Nat.eqb_neq. exact B.
-  - exists P224, es_short. eexists. destruct es_short_accepted as (A & B). split; [exact A|]. apply Nat.ltb_lt. exact B.
-Qed.
+  (length es_short <? es_len P224)%nat = true /\
+  DecodeEvaluatorSession P224 es_short = Err.
+Proof. vm_compute. repeat split; reflexivity. Qed.
 
 (* the well-formedness predicates are inhabited on every curve *)
 Example wf_inhabited c :
@@ -1355,4 +1897,195 @@ Proof.
                      es_sid es_name es_ax es_ay es_scalars es_bits r2_sid r2_name r2_choices fst snd];
     try reflexivity; try (apply F; lia); try (repeat constructor; apply F; lia);
     try (apply Forall_forall; intros x Hx; apply repeat_spec in Hx; subst x; try split; try (apply F; cbn; lia); reflexivity).
+Qed.
+
+(* ====================================================================== *)
+(* non-vacuity of the hypotheses of resume_same (C18_resume): a (constant)
+   choice of the opaque cryptographic functions satisfies all six, on every
+   curve                                                                   *)
+Definition nv_gen_sender (_ : unit) : N * (N * N) * (N * N) := (1, (2, 3), (4, 5)).
+Definition nv_read_sid (_ : unit) : N := 7.
+Definition nv_build_choices (_ : unit) (_ _ : N) (_ : list bool) : res (list N * list (N * N)) :=
+  Ok (repeat 4 evaluatorCiphertextCount, repeat (5, 1) evaluatorCiphertextCount).
+Definition nv_read_key (_ : unit) : bytes := repeat 0 garblingKeyBytes.
+Definition nv_garble (_ : unit) (_ : bytes) : res (list (N * N) * list (N * N) * list (N * N) * list N) :=
+  Ok (repeat (1, 2) hashInputBitCount, repeat (3, 4) hashInputBitCount, repeat (5, 6) outputHintCount,
+      repeat 7 garbledTableLabelCount).
+Definition nv_encrypt (_ : gsession) (_ _ : list (N * N)) : res (list (N * N)) :=
+  Ok (repeat (8, 9) evaluatorCiphertextCount).
+
+Example resume_hypotheses_inhabited c :
+  (forall rng, let '(a, (ax, ay), (ix, iy)) := nv_gen_sender rng in Forall (fits (byteLen c)) [a; ax; ay; ix; iy]) /\
+  (forall rng, nv_read_sid rng < 2 ^ 64) /\
+  (forall rng ax ay bits scalars points,
+     nv_build_choices rng ax ay bits = Ok (scalars, points) ->
+     length scalars = evaluatorCiphertextCount /\ Forall (fits (byteLen c)) scalars /\
+     length points = evaluatorCiphertextCount /\ Forall (point_ok dec_any c) points) /\
+  (forall rng, length (nv_read_key rng) = garblingKeyBytes) /\
+  (forall rng key gin ein outw tables,
+     nv_garble rng key = Ok (gin, ein, outw, tables) ->
+     length gin = hashInputBitCount /\ Forall (fits2 16) gin /\
+     length outw = outputHintCount /\ Forall (fits2 16) outw /\
+     length tables = garbledTableLabelCount /\ Forall (fits 16) tables) /\
+  (forall st pts ein cts,
+     nv_encrypt st pts ein = Ok cts -> length cts = evaluatorCiphertextCount /\ Forall (fits2 16) cts).
+Proof.
+  assert (F : forall w v, (1 <= w)%nat -> v < 256 -> fits w v).
+  { intros w v Hw Hv. unfold fits. eapply N.lt_le_trans; [exact Hv|].
+    rewrite <- (N.pow_1_r 256) at 1. apply N.pow_le_mono_r; lia. }
+  pose proof (byteLen_pos c) as Hb.
+  assert (FR : forall A (P : A -> Prop) x n, P x -> Forall P (repeat x n)).
+  { intros A P x n Hx. apply Forall_forall. intros y Hy. apply repeat_spec in Hy. subst y. exact Hx. }
+  split; [|split; [|split; [|split; [|split]]]].
+  - intros rng. repeat constructor; apply F; lia.
+  - intros rng. reflexivity.
+  - intros rng ax ay bits scalars points H. unfold nv_build_choices in H. apply Ok_inj in H.
+    pose proof (f_equal fst H) as E1. pose proof (f_equal snd H) as E2. cbn [fst snd] in E1, E2. subst scalars points.
+    split; [apply repeat_length|]. split; [apply FR; apply F; lia|]. split; [apply repeat_length|].
+    apply FR. split; [apply F; [lia|cbn [fst]; lia]|reflexivity].
+  - intros rng. apply repeat_length.
+  - intros rng key gin ein outw tables H. unfold nv_garble in H. apply Ok_inj in H.
+    pose proof (f_equal (fun t => fst (fst (fst t))) H) as E1.
+    pose proof (f_equal (fun t => snd (fst t)) H) as E3.
+    pose proof (f_equal snd H) as E4. cbn [fst snd] in E1, E3, E4. subst gin outw tables.
+    split; [apply repeat_length|]. split; [apply FR; split; apply F; cbn [fst snd]; lia|].
+    split; [apply repeat_length|]. split; [apply FR; split; apply F; cbn [fst snd]; lia|].
+    split; [apply repeat_length|]. apply FR. apply F; lia.
+  - intros st pts ein cts H. unfold nv_encrypt in H. apply Ok_inj in H. subst cts.
+    split; [apply repeat_length|]. apply FR; split; apply F; cbn [fst snd]; lia.
+Qed.
+
+(* ====================================================================== *)
+(* Round 3 is canonical: accepted bytes re-encode to themselves            *)
+
+Lemma slice_inv data lo hi b : slice data lo hi = Ok b ->
+  (lo <= hi)%nat /\ (hi <= length data)%nat /\ b = firstn (hi - lo) (skipn lo data).
+Proof.
+  unfold slice. destruct ((lo <=? hi)%nat && (hi <=? length data)%nat) eqn:E; [|discriminate].
+  apply andb_prop in E. destruct E as [E1 E2]. apply Nat.leb_le in E1. apply Nat.leb_le in E2.
+  intros H. apply Ok_inj in H. subst b. repeat split; assumption.
+Qed.
+
+Lemma split_be_length w : forall k d, length (split_be w k d) = k.
+Proof. induction k as [|k IH]; intros d; cbn [split_be length]; [reflexivity|]. rewrite IH. reflexivity. Qed.
+
+Lemma is_bytes_firstn n l : is_bytes l -> is_bytes (firstn n l).
+Proof. intros H. rewrite <- (firstn_skipn n l) in H. apply is_bytes_app in H. apply H. Qed.
+
+Lemma is_bytes_skipn n l : is_bytes l -> is_bytes (skipn n l).
+Proof. intros H. rewrite <- (firstn_skipn n l) in H. apply is_bytes_app in H. apply H. Qed.
+
+Lemma flat_split_be w : forall k d, length d = (w * k)%nat -> is_bytes d ->
+  flat_map (be_s w) (split_be w k d) = d /\ Forall (fits w) (split_be w k d).
+Proof.
+  induction k as [|k IH]; intros d L B; cbn [split_be flat_map].
+  - rewrite Nat.mul_0_r in L. destruct d; [split; constructor|discriminate].
+  - assert (Lf : length (firstn w d) = w) by (rewrite firstn_length; lia).
+    destruct (IH (skipn w d)) as [E F]; [rewrite skipn_length; lia|apply is_bytes_skipn; exact B|].
+    rewrite E. split.
+    + rewrite <- Lf at 1. rewrite be_s_of_be_s by (apply is_bytes_firstn; exact B). apply firstn_skipn.
+    + constructor; [|exact F]. rewrite <- Lf at 1. apply of_be_s_fits. apply is_bytes_firstn; exact B.
+Qed.
+
+Lemma unpairs_pairs : forall n l, length l = (2 * n)%nat -> unpairs (pairs l) = l /\ length (pairs l) = n.
+Proof.
+  unfold unpairs. induction n as [|n IH]; intros l L.
+  - destruct l; [split; reflexivity|discriminate].
+  - destruct l as [|a [|b l]]; try (cbn in L; lia).
+    destruct (IH l) as [E Ln]; [cbn in L; lia|]. cbn [pairs flat_map app fst snd length]. rewrite E, Ln. split; reflexivity.
+Qed.
+
+Section R3canon.
+  Variables (kKey nTabB nTab nInB nIn nHintB nHint nCtB nCt total : nat).
+  Hypothesis HtabB : nTabB = (16 * nTab)%nat.
+  Hypothesis HinB : nInB = (16 * nIn)%nat.
+  Hypothesis HhintB : nHintB = (16 * (2 * nHint))%nat.
+  Hypothesis HctB : nCtB = (16 * (2 * nCt))%nat.
+  Hypothesis Htotal : total = (length magicRound3 + 8 + kKey + nTabB + nInB + nHintB + nCtB)%nat.
+
+  Theorem r3_canonical_gen bs m : is_bytes bs ->
+    DecodeRound3_gen 8 kKey 16 nTabB nTab nInB nHintB nHint nCtB nCt total bs = Ok m ->
+    EncodeRound3_gen nTab nIn nHint nCt total m = Ok bs.
+  Proof.
+    intros B H. unfold DecodeRound3_gen in H. change (length magicRound3) with 2%nat in *.
+    apply bind_ok_inv in H. destruct H as (u0 & G0 & H). apply guard_ok_inv in G0. apply Nat.eqb_eq in G0.
+    cbv zeta in H.
+    apply bind_ok_inv in H. destruct H as (magic & S1 & H). apply slice_inv in S1. destruct S1 as (_ & _ & ->).
+    apply bind_ok_inv in H. destruct H as (u1 & G1 & H). apply guard_eqb_inv in G1.
+    apply bind_ok_inv in H. destruct H as (sid & S2 & H). apply slice_inv in S2. destruct S2 as (_ & _ & ->).
+    apply bind_ok_inv in H. destruct H as (key & S3 & H). apply slice_inv in S3. destruct S3 as (_ & _ & ->).
+    apply bind_ok_inv in H. destruct H as (tb & S4 & H). apply slice_inv in S4. destruct S4 as (_ & _ & ->).
+    apply bind_ok_inv in H. destruct H as (tables & D4 & H).
+    apply bind_ok_inv in H. destruct H as (ib & S5 & H). apply slice_inv in S5. destruct S5 as (_ & _ & ->).
+    apply bind_ok_inv in H. destruct H as (inputs & D5 & H).
+    apply bind_ok_inv in H. destruct H as (hb & S6 & H). apply slice_inv in S6. destruct S6 as (_ & _ & ->).
+    apply bind_ok_inv in H. destruct H as (hints & D6 & H).
+    apply bind_ok_inv in H. destruct H as (cb & S7 & H). apply slice_inv in S7. destruct S7 as (_ & _ & ->).
+    apply bind_ok_inv in H. destruct H as (cts & D7 & H). apply Ok_inj in H. subst m.
+    (* the seven consecutive pieces *)
+    set (d1 := skipn 2 bs) in *. set (d2 := skipn 8 d1) in *. set (d3 := skipn kKey d2) in *.
+    set (d4 := skipn nTabB d3) in *. set (d5 := skipn nInB d4) in *. set (d6 := skipn nHintB d5) in *.
+    assert (K : forall a b (l : list N), skipn (a + b) l = skipn b (skipn a l)).
+    { induction a as [|a IHa]; intros b l; [reflexivity|]. destruct l as [|x l]; [cbn [Nat.add skipn]; rewrite skipn_nil; reflexivity|]. cbn [Nat.add skipn]. apply IHa. }
+    replace (0 + 2 - 0)%nat with 2%nat in * by lia. change (skipn 0 bs) with bs in G1.
+    change (0 + 2)%nat with 2%nat in *.
+    repeat match goal with
+    | H : context [firstn (?a + ?k - ?a)] |- _ => replace (a + k - a)%nat with k in H by lia
+    end.
+    repeat rewrite K in D4. repeat rewrite K in D5. repeat rewrite K in D6. repeat rewrite K in D7.
+    fold d1 d2 d3 d4 d5 d6 in D4, D5, D6, D7.
+    assert (E : bs = firstn 2 bs ++ firstn 8 d1 ++ firstn kKey d2 ++ firstn nTabB d3 ++ firstn nInB d4
+                     ++ firstn nHintB d5 ++ d6).
+    { unfold d6, d5, d4, d3, d2, d1. rewrite !firstn_skipn. reflexivity. }
+    assert (L1 : length d1 = (total - 2)%nat) by (unfold d1; rewrite skipn_length; lia).
+    assert (L2 : length d2 = (total - 2 - 8)%nat) by (unfold d2; rewrite skipn_length; lia).
+    assert (L3 : length d3 = (total - 2 - 8 - kKey)%nat) by (unfold d3; rewrite skipn_length; lia).
+    assert (L4 : length d4 = (total - 2 - 8 - kKey - nTabB)%nat) by (unfold d4; rewrite skipn_length; lia).
+    assert (L5 : length d5 = (total - 2 - 8 - kKey - nTabB - nInB)%nat) by (unfold d5; rewrite skipn_length; lia).
+    assert (L6 : length d6 = nCtB) by (unfold d6; rewrite skipn_length; lia).
+    assert (E7 : firstn nCtB d6 = d6) by (rewrite <- L6; apply firstn_all).
+    rewrite E7 in D7.
+    assert (B1 : is_bytes d1) by (apply is_bytes_skipn; exact B).
+    assert (B2 : is_bytes d2) by (apply is_bytes_skipn; exact B1).
+    assert (B3 : is_bytes d3) by (apply is_bytes_skipn; exact B2).
+    assert (B4 : is_bytes d4) by (apply is_bytes_skipn; exact B3).
+    assert (B5 : is_bytes d5) by (apply is_bytes_skipn; exact B4).
+    assert (B6 : is_bytes d6) by (apply is_bytes_skipn; exact B5).
+    unfold decodeLabelBlock in D4, D5, D6, D7.
+    apply bind_ok_inv in D4. destruct D4 as (? & _ & D4). apply Ok_inj in D4. subst tables.
+    apply bind_ok_inv in D5. destruct D5 as (? & _ & D5). apply Ok_inj in D5. subst inputs.
+    apply bind_ok_inv in D6. destruct D6 as (? & _ & D6). apply Ok_inj in D6. subst hints.
+    apply bind_ok_inv in D7. destruct D7 as (? & _ & D7). apply Ok_inj in D7. subst cts.
+    assert (Ediv : (nInB / 16)%nat = nIn) by (rewrite HinB, Nat.mul_comm; apply Nat.div_mul; lia).
+    rewrite Ediv.
+    destruct (flat_split_be 16 nTab (firstn nTabB d3)) as [ET _]; [rewrite firstn_length; lia|apply is_bytes_firstn; exact B3|].
+    destruct (flat_split_be 16 nIn (firstn nInB d4)) as [EI _]; [rewrite firstn_length; lia|apply is_bytes_firstn; exact B4|].
+    destruct (flat_split_be 16 (2 * nHint) (firstn nHintB d5)) as [EH _]; [rewrite firstn_length; lia|apply is_bytes_firstn; exact B5|].
+    destruct (flat_split_be 16 (2 * nCt) d6) as [EC _]; [lia|exact B6|].
+    destruct (unpairs_pairs nHint (split_be 16 (2 * nHint) (firstn nHintB d5)) (split_be_length _ _ _)) as [UH LH].
+    destruct (unpairs_pairs nCt (split_be 16 (2 * nCt) d6) (split_be_length _ _ _)) as [UC LC].
+    repeat match goal with
+    | |- context [firstn (?a + ?k - ?a)] => replace (a + k - a)%nat with k by lia
+    end.
+    repeat rewrite K. fold d1 d2.
+    unfold EncodeRound3_gen. cbn [r3_sid r3_key r3_tables r3_inputs r3_hints r3_cts].
+    rewrite !split_be_length, LH, LC, !Nat.eqb_refl. cbn [guard bind].
+    unfold encodeLabelList. rewrite UH, UC, ET, EI, EH, EC.
+    assert (Ls : length (firstn 8 d1) = 8%nat) by (rewrite firstn_length; lia).
+    pose proof (be_s_of_be_s (firstn 8 d1) (is_bytes_firstn _ _ B1)) as Eb. rewrite Ls in Eb.
+    rewrite Eb, <- G1, <- E, G0, Nat.eqb_refl. reflexivity.
+  Qed.
+End R3canon.
+
+Theorem r3_canonical bs m : is_bytes bs -> DecodeRound3 bs = Ok m -> EncodeRound3 m = Ok bs.
+Proof.
+  intros B H. destruct consts_rel as (Csid & Clab & Ctb & Cib & Chb & Ccb).
+  assert (Htot : round3PayloadLen = (length magicRound3 + 8 + garblingKeyBytes + garbledTableByteLen
+            + garblerInputLabelBytes + outputHintBytes + ciphertextBytes)%nat).
+  { unfold round3PayloadLen. rewrite Csid. reflexivity. }
+  unfold DecodeRound3 in H. rewrite Csid, Clab in H.
+  pose proof (r3_canonical_gen garblingKeyBytes garbledTableByteLen garbledTableLabelCount
+           garblerInputLabelBytes garblerInputLabelCount outputHintBytes outputHintCount
+           ciphertextBytes evaluatorCiphertextCount round3PayloadLen Ctb Cib Chb Ccb Htot bs m B H) as G.
+  unfold EncodeRound3. exact G.
 Qed.
